@@ -5,14 +5,16 @@ SPEC = {
     "rule": "parameter menu (extendedFluctuation x extendedTimeConstant x time step x friction 0/10 ps^-1 with a scripted "
             "noise sequence x reflecting boundary none/lower/upper, plus a wall bias acting directly on the atoms) x ALL words "
             "of length 3 (thorough 4) over {stay, +w, -w, jump} x {0,-1,+2} bias force x ALL run segmentations (new run = "
-            "repeated step); after EVERY call the reported value, velocity, potential and kinetic energy, total force, the "
+            "repeated step; three kinds of run boundary; for new runs in the same process also with the atoms displaced by +-0.4 "
+            "(more than half a width) between the two evaluations of the repeated step); after EVERY call the reported value, velocity, potential and kinetic energy, total force, the "
             "new position and the atomic force are compared with a reference BAOA integrator; plus energy conservation at "
             "two time steps without friction; states = distinct final (x,v), transitions = Colvars steps",
     "assumptions": ["reference scheme: B (two half kicks, kinetic energy in between), A, O, A, as in the cited BAOA/GSD paper",
                     "on a reflection the statement constrains the position only: the reference takes over the implementation's "
                     "velocity after checking the reflected position",
-                    "a repeated step restores the pre-integration state, or re-initialises on the actual value after a jump "
-                    "larger than half a width (documented in the log message)"],
+                    "a repeated step restores the pre-integration state, or - after a jump of the variable larger than half a width "
+                    "(documented in the log message) - re-initialises the coordinate on the actual value, clamped into the reflecting "
+                    "boundaries, with the pre-integration velocity"],
 }
 META = {
   "text": "Explicit enumeration of every bounded history of coordinate moves and bias forces, parameters and run segmentations on "
